@@ -277,6 +277,19 @@ class FtpControl(fakenet.BaseServer):
             if not ok:
                 self.reply(ep, name, b'550 no such file\r\n')
                 return
+            counted = getattr(s.run, 'count_ftp', False) and name in ('LIST', 'RETR')
+            if counted:
+                # (drivers/crawl.py, FTP scenarios) the request of the URL this command fetches
+                u = s.run.uid('ftp://f.test' + arg)
+                s.run.nreq += 1
+                nq = s.run.nreq
+                try:
+                    item = s.run.task_item.get(asyncio.current_task(), 0)
+                except RuntimeError:
+                    item = 0
+                s.run.log(e='req', n=nq, u=u, kind='page' if u else 'other', host='f.test', h=1, port=21, path=arg,
+                          conn_host='f.test', item=item)
+                s.run.log(e='resp', n=nq, u=u, cls='page', h=1)
             if not self.reply(ep, name, b'150 here it comes\r\n'):
                 return
             h = s.hostile_at('data')
